@@ -1625,11 +1625,51 @@ fn probe_manager() -> i32 {
     0
 }
 
+/// Developer probe (not part of the check; an observation for C09): the scheduler handles a restart
+/// request with `restart(mode)` followed by `load_retain_store()` and no save in between
+/// (`TestHarness::restart_with_retain` is the same sequence), so a warm restart replaces the current
+/// RETAIN values by the last periodically saved ones.
+fn probe_restart() -> i32 {
+    use trust_runtime::harness::TestHarness;
+    use trust_runtime::RestartMode;
+    let src = r#"
+CONFIGURATION Conf
+VAR_GLOBAL RETAIN
+    Count : INT := 0;
+END_VAR
+PROGRAM P1 : Main;
+END_CONFIGURATION
+
+PROGRAM Main
+Count := Count + 1;
+END_PROGRAM
+"#;
+    let dir = work_dir();
+    let path = dir.join("probe.retain");
+    let mut h = TestHarness::from_source(src).expect("compile");
+    h.runtime_mut().set_retain_store(
+        Some(Box::new(FileRetainStore::new(path.clone()))),
+        Some(Duration::from_millis(60_000)),
+    );
+    h.cycle();
+    println!("after 1 cycle           : Count = {:?}", h.get_output("Count"));
+    println!("periodic save           : {:?}", h.runtime_mut().save_retain_store());
+    h.cycle();
+    h.cycle();
+    h.cycle();
+    println!("after 4 cycles          : Count = {:?} (save interval 60 s not elapsed, file still holds 1)", h.get_output("Count"));
+    println!("restart_with_retain(Warm): {:?}", h.restart_with_retain(RestartMode::Warm));
+    println!("after warm restart      : Count = {:?} (a warm restart keeps RETAIN values: expected 4)", h.get_output("Count"));
+    let _ = std::fs::remove_dir_all(&dir);
+    0
+}
+
 pub fn run(args: &Args) -> i32 {
     match args.extra.get("mode").map(|s| s.as_str()) {
         Some("decchild") => return dec_child(args),
         Some("storechild") => return store_child(args),
         Some("probe-manager") => return probe_manager(),
+        Some("probe-restart") => return probe_restart(),
         _ => {}
     }
     let crash_cases = args.extra_usize("crash", 4) as u64;
